@@ -292,7 +292,7 @@ def r12_5(ctx, rep, roles):
     for row in eng.table(rn["id"], arg_terms={1: ("ptr", ("S", "self"), ()), 2: ("ptr", ("S", "id"), ())}):
         removed = None
         for c in row.cond:
-            if c[0] == "variant" and c[1][0] == "call" and c[1][1].endswith("::remove") and c[3]:
+            if c[0] == "variant" and c[1][0] == "call" and (c[1][1].endswith("::remove") or c[1][1].endswith("::remove_entry")) and c[3]:
                 removed = c[2] == "Some"
         pushes = [e for e in row.calls() if e[1].endswith("::push") and e[2][0] == ("ptr", ("S", "self"), (F(CS, "garbage_collected_nodes"),))]
         if removed is None:
@@ -307,7 +307,10 @@ def r12_5(ctx, rep, roles):
             rep.obligation(ok or T.last_field(hb) == (NS, "heartbeat"), "C12/R12.5/remembered-heartbeat", "the remembered heartbeat is %s" % sym.fmt(hb)[:60], where(rn),
                            sample="memory[id] = removed_state.heartbeat")
             idv = e[2][1]
-            rep.obligation(any(s == ("obj", ("S", "id")) for s in T.subterms(idv)), "C12/R12.5/remembered-id", "the remembered id is %s" % sym.fmt(idv)[:60], where(rn))
+            # the id itself (a clone), or the owned key handed back by `remove_entry(id)`
+            from_entry = any(x[0] == "call" and x[1].endswith("::remove_entry") and any(y[0] in ("ptr", "obj") and y[1] == ("S", "id") for y in T.subterms(x[2][1]))
+                             for x in T.subterms(T.resolve_locals(eng, row.store, idv)))
+            rep.obligation(any(s == ("obj", ("S", "id")) for s in T.subterms(idv)) or from_entry, "C12/R12.5/remembered-id", "the remembered id is %s" % sym.fmt(idv)[:60], where(rn))
     rep.floor("remove_node-rows", n, 2)
     # capacity constant
     sites = 0
